@@ -38,6 +38,8 @@ func runC18(p *core.Prog, r *core.Report) {
 	// a layout target resolves the tag it was just given exactly (shared with C06.R6)
 	c06R6(p, r, "C18.R8")
 	c18R9(p, r)
+	// the filters see every tag the source lists: pages are merged without an order assumption (shared with C06.R11)
+	c06R11(p, r, "C18.R12")
 }
 
 // lossyKeyRule: a cache key that stands for a structured value by a rendering of it (a String()
@@ -646,6 +648,26 @@ func c18R3(p *core.Prog, r *core.Report) {
 	r.Check(ok, rule, fname, "backup precedes overwrite", p.Pos(backup.Pos()), "from the edge on which a backup is wanted, the overwriting copy is only reachable through the backup copy (error returns aside)")
 	c18R10(p, r, fn, mainCopy, backup)
 	c18R11(p, r, fn, mainCopy, tgtP)
+	c18R13(p, r, fn, mainCopy, backup)
+}
+
+// c18R13: the backup is the first step of an overwrite that is going to happen. Once the previous
+// image has been copied to the backup name, the function either overwrites the tag or fails; a
+// "nothing to do" return after the backup means the backup name was moved for a tag that stays as it
+// is, and the image that was kept there from the last real overwrite is lost.
+func c18R13(p *core.Prog, r *core.Report, fn *ssa.Function, mainCopy, backup *ssa.Call) {
+	const rule = "C18.R13"
+	r.Rule(rule, "the decision to overwrite is final before the backup is written: from the backup copy no return that can report success is reachable before the overwriting copy", 1)
+	bad := ""
+	seen := core.Reach{Stop: func(in ssa.Instruction) bool { return in == ssa.Instruction(mainCopy) }}.FromInstr(backup)
+	for _, ret := range core.Returns(fn) {
+		if seen[ret] && !failureReturn(fn, ret) {
+			if pos := p.Pos(ret.Pos()); bad == "" || pos < bad {
+				bad = pos
+			}
+		}
+	}
+	r.Check(bad == "", rule, p.FuncName(fn), "no early success after the backup", p.Pos(backup.Pos()), "the return at "+bad+" can report success and is reachable after the backup copy without the overwriting copy: the run moves the backup name although the tag is left as it is, and the previous image kept under that name is lost")
 }
 
 // c18R10: "available under that name before the tag is overwritten" — a backup that did not succeed
